@@ -68,6 +68,10 @@ type tagFilter struct {
 	isEmptyValue bool
 
 	regexpPrefix string
+
+	// value holds the unescaped literal of a pure-literal regexp (rewritten by InfluxRegrep/OpGeminiRegrep),
+	// it is not a regular expression any more
+	valueIsLiteral bool
 }
 
 type TagFilters struct {
@@ -234,6 +238,7 @@ func (tf *tagFilter) Init(name, key, value []byte, isNegative, isRegexp bool) er
 	tf.orSuffixes = tf.orSuffixes[:0]
 	tf.isEmptyMatch = false
 	tf.isAllMatch = false
+	tf.valueIsLiteral = false
 	tf.graphiteReverseSuffix = tf.graphiteReverseSuffix[:0]
 
 	compositeKey := kbPool.Get()
@@ -286,6 +291,7 @@ func (tf *tagFilter) InfluxRegrep() (regexpCacheValue, error) {
 		prefix, expr = getRegexpPrefix(tf.value)
 		if len(expr) == 0 {
 			tf.value = append(tf.value[:0], prefix...)
+			tf.valueIsLiteral = true
 			// select /Ubuntu/ should return match value which contain Ubuntu
 			tf.reSuffixMatch = func(b []byte) bool {
 				return bytes.Contains(b, tf.value)
@@ -312,6 +318,7 @@ func (tf *tagFilter) OpGeminiRegrep() (*regexpCacheValue, error) {
 		prefix, expr = openGeminiSimplifyRegexp(prefix)
 		if len(expr) == 0 {
 			tf.value = append(tf.value[:0], prefix...)
+			tf.valueIsLiteral = true
 			// select /Ubuntu/ should return match value which contain Ubuntu
 			tf.reSuffixMatch = func(b []byte) bool {
 				return bytes.Contains(b, tf.value)
